@@ -61,8 +61,16 @@ func NewSolver(name string, tt *TermTable, timeoutMS int) (*Solver, error) {
 	return s, nil
 }
 
+// solverMemKB caps the address space of every solver process: a query that blows up must end
+// as "unknown" (inconclusive), never take the machine down with 16 workers running.
+const solverMemKB = 3 * 1024 * 1024
+
 func (s *Solver) start() error {
-	s.cmd = exec.Command(s.argv[0], s.argv[1:]...)
+	sh := fmt.Sprintf("ulimit -v %d; exec", solverMemKB)
+	for _, a := range s.argv {
+		sh += " '" + a + "'"
+	}
+	s.cmd = exec.Command("sh", "-c", sh)
 	in, err := s.cmd.StdinPipe()
 	if err != nil {
 		return err
